@@ -85,14 +85,31 @@ def tty_numbers():
     """Device inventory psutil will see: the real /dev/tty* plus a generated /dev/pts with large minors
     (st_rdev = makedev(136, n), which is also how the kernel encodes tty_nr in /proc/<pid>/stat)."""
     out = []
-    for name in glob.glob("/dev/tty*"):
-        try:
-            out.append((os.stat(name).st_rdev, name))
-        except OSError:
-            pass
+    for name, rdev in BASE_TTYS.items():
+        out.append((rdev, f"/dev/{name}"))
     for n in FAKE_PTS:
         out.append((os.makedev(136, n), f"/dev/pts/{n}"))
     return out
+
+
+# the simulated /dev: consoles and serial lines that are there since boot, and lines that are plugged in later
+BASE_TTYS = {"tty": os.makedev(5, 0), "tty0": os.makedev(4, 0), "tty1": os.makedev(4, 1), "tty2": os.makedev(4, 2),
+             "tty63": os.makedev(4, 63), "ttyS0": os.makedev(4, 64), "ttyS1": os.makedev(4, 65), "ttyprintk": os.makedev(5, 3)}
+LATE_TTYS = {"ttyUSB0": os.makedev(188, 0), "ttyUSB17": os.makedev(188, 17), "ttyACM0": os.makedev(166, 0),
+             "ttyS31": os.makedev(4, 95), "ttyAMA0": os.makedev(204, 64), "tty7": os.makedev(4, 7)}
+
+
+def fake_dev_dir():
+    import tempfile
+    d = tempfile.mkdtemp(prefix="c06_dev_")
+    for name in list(BASE_TTYS) + ["console", "null", "ptmx", "vcs1"]:
+        with open(os.path.join(d, name), "w"):
+            pass
+    os.mkdir(os.path.join(d, "pts"))
+    import atexit
+    import shutil
+    atexit.register(shutil.rmtree, d, True)
+    return d
 
 
 def fake_pts_dir():
@@ -129,6 +146,10 @@ def gen_case(rng, ttys):
         n_late = rng.choice(FAKE_PTS)
         case["pty_late"] = n_late
         case["tty_nr"] = os.makedev(136, n_late)
+    elif rng.random() < 0.04:
+        # a serial line plugged in (a USB adapter, a late driver) after the device map was built: the process sits on it
+        case["tty_late"] = rng.choice(sorted(LATE_TTYS))
+        case["tty_nr"] = LATE_TTYS[case["tty_late"]]
     elif rng.random() < 0.04:
         # a pseudo-terminal closed while the (memoized) device map is being built: listed by the directory scan, gone at stat()
         case["pty_vanish"] = rng.choice(FAKE_PTS)
@@ -192,7 +213,7 @@ def setup():
     from vlib import psu, vkernel
     from vlib.proctable import ProcTable
     ps = psu.load()
-    _env.update(ps=ps, vkernel=vkernel, ProcTable=ProcTable, ttys=tty_numbers(), pts_dir=fake_pts_dir(),
+    _env.update(ps=ps, vkernel=vkernel, ProcTable=ProcTable, ttys=tty_numbers(), pts_dir=fake_pts_dir(), dev_dir=fake_dev_dir(),
                 clk=os.sysconf("SC_CLK_TCK"))
     ps.PROCFS_PATH = "/vproc"
     return _env
@@ -242,10 +263,20 @@ def _run_case(case, acc, clk):
     vk = vkernel.VK()
     vk.table = t
     vk.mount("/vproc", t)
+    vk.redirect("/dev", env["dev_dir"])
     vk.redirect("/dev/pts", env["pts_dir"])
     vk.rdev = {f"/dev/pts/{n}": os.makedev(136, n) for n in FAKE_PTS}
+    vk.rdev.update({f"/dev/{n}": r for n, r in list(BASE_TTYS.items()) + list(LATE_TTYS.items())})
     viols = []
     ttymap = dict(env["ttys"])
+    # lines plugged in during an earlier case are unplugged again: a machine starts without them
+    for n in LATE_TTYS:
+        lp = os.path.join(env["dev_dir"], n)
+        if os.path.exists(lp):
+            os.unlink(lp)
+            _tm = getattr(ps._psposix, "get_terminal_map", None)
+            if hasattr(_tm, "cache_clear"):
+                _tm.cache_clear()
     victim = case.get("pty_vanish")
     tmap_fn = getattr(ps._psposix, "get_terminal_map", None)
     if victim is not None and tmap_fn is not None and hasattr(tmap_fn, "cache_clear"):
@@ -270,6 +301,16 @@ def _run_case(case, acc, clk):
             with open(lpath, "w"):
                 pass
         acc.count("terminal_map_built_before_the_pty_existed")
+
+    tty_late = case.get("tty_late")
+    if tty_late is not None and tmap_fn is not None and victim is None and late is None:
+        # some terminal() call earlier in the program's life built the map; then the line appears
+        with vk:
+            tmap_fn()
+        with open(os.path.join(env["dev_dir"], tty_late), "w"):
+            pass
+        ttymap[LATE_TTYS[tty_late]] = f"/dev/{tty_late}"
+        acc.count("terminal_map_built_before_the_serial_line_existed")
 
     def cmp(getter, got, want, feature=None):
         acc.count("getter_comparisons")
@@ -315,7 +356,8 @@ def _run_case(case, acc, clk):
               float(case["cstime"]) / clk, (float(case["blkio"]) / clk) if case["nfields"] >= 42 else 0.0), None),
             ("create_time", lambda: pr._proc.create_time(), float(case["start"]) / clk + 1_700_000_000.0, None),
             ("cpu_num", lambda: pr.cpu_num(), case["processor"], None),
-            ("terminal", lambda: pr.terminal(), ttymap.get(case["tty_nr"]), "pty_created_after_first_call" if late is not None else None),
+            ("terminal", lambda: pr.terminal(), ttymap.get(case["tty_nr"]), "pty_created_after_first_call" if late is not None else
+             "serial_line_plugged_in_after_first_call" if tty_late is not None else None),
             ("num_threads", lambda: pr.num_threads(), max(1, len(case["threads"])), feat_status()),
             ("num_ctx_switches", lambda: tuple(pr.num_ctx_switches()), (case["vctx"], case["nvctx"]), feat_status()),
             ("uids", lambda: tuple(pr.uids()), tuple(case["uids"][:3]), feat_status()),
